@@ -5,7 +5,21 @@ NOTES = ("Model-based verification with explicit TLA+ specifications: see DESIGN
 NOT_YET = {}
 QT = ("TLC -workers 1 evaluates the clauses of spec/QueryTrace.tla (EngEqualsRef, EngEqualsSpec via PromQLRef.tla, calibration) on "
       "every scenario of the recorded trace")
+def _q(prop, what, ref):
+    return {
+        "text": what + " Scenarios are replayed through the real engine (fallback disabled) and the pinned Prometheus engine on one instrumented storage; TLC validates every recorded result against PromQLRef's denotation (where the scenario is structural and PromQLRef is calibrated against Prometheus on it) and against the reference result (values up to rounding).",
+        "design_ref": ref,
+        "note": "Trusted: Prometheus v0.40.1 as oracle, the vstore storage, the Go comparator (1e-9 relative tolerance), the scenario printer/parser round trip; scope bounded by the tier constants of the generator modules; scenarios with topk/bottomk ties are excluded from the reference comparison (order dependent in the reference).",
+        "technique": "TLA+ reference semantics (PromQLRef) + TLC scenario generation with model-level laws + replay into engine and Prometheus + TLC trace validation (QueryTrace)",
+    }
+
+
 CHECKS = {
+ "C01": _q("C01", "TLC enumerates every well-typed plan W2(W1(leaf)) [op W3(leaf')] over the alphabets of Gen_Compose.tla (ComposeLaw model-checked on all) and a Go generator adds seeded random expression trees over random irregular datasets whose expected outcome TLC computes during validation.", "DESIGN.md §6 C01"),
+ "C03": _q("C03", "TLC enumerates sample layouts x value patterns x range x step x offset x @ x window (WindowLaw: sum_over_time over 2^t values is the membership bitmask of the closed window, model-checked on all), range function chosen by seeded hash, tick 1000 ms and 500 ms.", "DESIGN.md §6 C03"),
+ "C04": _q("C04", "TLC enumerates label configurations x presence histories x step counts x NaN/Inf members (AggLaw model-checked on all); aggregator, grouping and parameter chosen by seeded hash.", "DESIGN.md §6 C04"),
+ "C05": _q("C05", "TLC enumerates label configurations of two metrics x presence histories x step counts (BinLaw model-checked on all); operator, matching, cardinality/include, bool, scalar operands and wrappers chosen by seeded hash; the specification also names the reason for which the reference fails a step.", "DESIGN.md §6 C05"),
+ "C06": _q("C06", "TLC enumerates presence histories x value domains x step counts 1..101 x lookbacks (FuncLaw model-checked on all); 40 expression shapes over all native functions, scalars, unary minus and @-pinned parts chosen by seeded hash.", "DESIGN.md §6 C06"),
  "C02": {
   "text": "Exhaustive small-scope enumeration by TLC of sample layouts x lookback x per-query lookback x offset x @ x step x window (SelectionLaw model-checked on every enumerated scenario); boundary scenarios replayed through the real engine and Prometheus; each result validated by TLC against PromQLRef's denotation and the reference result.",
   "design_ref": "DESIGN.md §6 C02",
